@@ -242,6 +242,8 @@ def seq_cases():
 # real runs
 
 def run_vhs(cases, wd, nproc=None, timeout=1500):
+    from common import tscale
+    timeout = tscale(timeout)
     # every job spawns one thread per replica (+1 for the sink): thread creation, not CPU, bounds the
     # throughput (measured: 14 processes are no faster than 8), so keep the process count moderate
     nproc = max(1, min(nproc or min(NPROC, 8), len(cases)))
